@@ -72,8 +72,8 @@ func c07Orders(tier string, seed int64, idx int, scratch string) rt.CaseResult {
 					readsBetween := n%3 == 0
 					// keys of 40-140 bytes made of two- and three-byte runes after an ASCII prefix of
 					// varying length: whatever byte offset a layer may cut a key at, some key has a
-					// rune straddling it
-					key := fmt.Sprintf("o%d-%d-", idx, n) + strings.Repeat([]string{"é", "日", "ключ"}[n%3], 10+n%30) + []string{"", "x", "xy"}[n/3%3]
+					// rune straddling it; three keys in four end in percent sequences (URL escapes, things fmt takes for verbs)
+					key := fmt.Sprintf("o%d-%d-", idx, n) + strings.Repeat([]string{"é", "日", "ключ"}[n%3], 10+n%30) + []string{"", "x", "xy"}[n/3%3] + []string{"", "%d", "/2024%2F10/caf%C3%A9", "%w%v%s%!"}[n/7%4]
 					plan := map[string]any{"seed": seed, "case": idx, "mode": modeName(mode), "order": order, "levels": levels, "key": keyState, "writes": writes, "reads_in_between": readsBetween}
 					init := seqrun.Content(key+"-init", 12)
 					switch keyState {
